@@ -34,8 +34,9 @@ def test_without_pandas():
 def verify_np_array(seq):
     try:
         np = importlib.import_module("numpy")
-    except ImportError as e:
-        raise NumpyException("Expects numpy to be installed") from e
+    except ImportError:
+        # Without Numpy there are no Numpy arrays to verify (e.g. array.array is fine as is)
+        return seq
     if np is not None:
         if isinstance(seq, (np.ndarray, np.generic)):
             if not seq.data.c_contiguous:
